@@ -42,6 +42,9 @@ CHECKS = {
  "C02": dict(design="§3 C02", engine="XH",
              technique="skeleton + holes on decorated section skeletons (all legal header sequences up to the bound): real walker + ZorgFileCompiler under CrossHair (z3) with a menu-valued name symbolic, every note compared with the inheritance oracle",
              note="stubs: strptime model, clock, loggers; header sequences and name menus are the bound"),
+ "C08": dict(design="§3 C08", engine="XH",
+             technique="solver-chosen pages (risky word-form pairs, continuation shapes, single-token edits of valid pages) compiled by the real walk_zorg_page concretely; CrossHair (z3) symbolic execution of the create/reindex refusal logic under symbolic flags",
+             note="ANTLR cannot be traced: parse side concrete, arbitrary non-grammar text NOT claimed; part C stubs walk_zorg_page, repo, FS; C01/C02 run the listener under symbolic token texts"),
 }
 NA = {
  "C13": "crash points between external effects (SQLite transactions, OS file writes) cannot be made symbolic: the effects are C-level/ORM internals; with them concrete a symbolic crash index is realised at the first effect, which is enumeration of faulted runs, a different technique (DESIGN.md §8)",
